@@ -21,7 +21,6 @@ from cirq_aqt import aqt_sampler as _aqt_sampler_mod
 from cirq_ionq import ionq_client as _ionq_client_mod
 from cirq_ionq.ionq_exceptions import IonQSerializerMixedGatesetsException, NotSupportedPauliexpParameters
 from cirq_pasqal import pasqal_sampler as _pasqal_sampler_mod
-from vf import registry
 from vf.core import Reject, SubCheck, Violation
 from vf.gen import gates as G
 from vf.prng import ScriptedPRNG
@@ -82,6 +81,9 @@ SENSITIVITY = [
     "pasqal repetitions header fixed to 1 [repo tests pass]",
     "ionq sampler pairs results with resolvers in reverse [repo tests pass]",
     "ionq sampler resolves every job with the first resolver [repo tests pass]",
+    "aqt register sized by the number of used qubits [repo tests pass]",
+    "ionq invert_mask of a measurement silently dropped [repo tests pass]",
+    "aqt measurement ops serialised as gates again [repo tests pass]",
     "ionq pauliexp string not reversed [repo tests catch it]",
     "ionq measurement targets sorted in metadata [repo tests catch it]",
     "ionq qubit count = number of used qubits [repo tests catch it]",
@@ -108,7 +110,10 @@ def uncovered():
 ATOLS = [1e-8, 1e-8, 1e-8, 1e-6, 1e-4]
 
 
-# ======================================================================================== pending candidates
+# ======================================================================================== feature predicates
+# (F17a-d were genuine defects found by this check; all four are fixed in /repo, so the features are generated and
+#  checked like everything else: AQT circuits with a terminal measurement / an idle ion, IonQ measurements with an
+#  invert_mask / a repeated key -- the latter two must now be rejected with ValueError.)
 
 def _has_aqt_measure(sub, r):
     return sub.startswith("aqt") and bool(r.get("meas"))
@@ -119,7 +124,7 @@ def _has_aqt_idle(sub, r):
 
 
 def _has_ionq_invert_mask(sub, r):
-    return sub.startswith("ionq") and any(m.get("inv") for c in r.get("circs", []) for m in c.get("meas", []))
+    return sub.startswith("ionq") and any(any(m.get("inv") or []) for c in r.get("circs", []) for m in c.get("meas", []))
 
 
 def _has_ionq_repeated_key(sub, r):
@@ -128,38 +133,6 @@ def _has_ionq_repeated_key(sub, r):
         if len(set(keys)) != len(keys):
             return True
     return False
-
-
-KNOWN_FEATURES = {
-    "F17a_aqt_measurement_crash": _has_aqt_measure,
-    "F17b_aqt_idle_qubit_count": _has_aqt_idle,
-    "F17c_ionq_invert_mask_dropped": _has_ionq_invert_mask,
-    "F17d_ionq_repeated_key_lost": _has_ionq_repeated_key,
-}
-
-
-def _adjudicated():
-    try:
-        return {f.get("feature") for f in registry.known_findings() if f.get("property") == "C17" and f.get("feature")}
-    except Exception:
-        return set()
-
-
-_ADJ = _adjudicated()
-_ALL = bool(os.environ.get("VERIF_C17_CANDIDATES"))
-
-
-def _pending(sub, r):
-    """Candidate defects that the coordinator has not adjudicated yet are not generated into the verdict.
-
-    Once known_findings.json carries an entry with "feature": <name> (status known -> excluded by the framework and
-    reported as KNOWN-FINDING; status fixed -> checked like everything else) the feature is live.  VERIF_C17_CANDIDATES=1
-    makes them live unconditionally (that is how the candidates in the report were reproduced)."""
-    if _ALL:
-        return
-    for name, pred in KNOWN_FEATURES.items():
-        if name not in _ADJ and pred(sub, r):
-            raise Reject(f"candidate {name} pending adjudication")
 
 
 # ======================================================================================== generic helpers
@@ -304,10 +277,10 @@ def _keys(draw, n, allow_candidates=True):
         else:
             key = draw(st.text(KEY_ALPHABET, min_size=1, max_size=[3, 3, 8, 14, 20, 30][style])) + str(i)
         out.append({"key": key, "t": t, "inv": []})
-    if out and allow_candidates and draw(_one_in(40)):
+    if out and allow_candidates and draw(_one_in(20)):
         m = out[draw(st.integers(0, len(out) - 1))]
         m["inv"] = [draw(st.booleans()) for _ in m["t"]]
-    if len(out) >= 2 and allow_candidates and draw(_one_in(80)):
+    if len(out) >= 2 and allow_candidates and draw(_one_in(40)):
         out[1]["key"] = out[0]["key"]
     return out
 
@@ -585,7 +558,6 @@ def _ionq_labels(r, built, chunks):
 
 def oracle_ionq_serializer(r):
     sub = "ionq_native" if r["native"] else "ionq_qis"
-    _pending(sub, r)
     built, atol, prog, err = _serialize_ionq(r)
     if err is not None:
         if _has_ionq_invert_mask(sub, r) or _has_ionq_repeated_key(sub, r):
@@ -609,7 +581,7 @@ def _check_invert_and_repeats(r):
 # ======================================================================================== IonQ: unsupported content
 
 UNSUPPORTED = ["gate", "gate", "gate", "oddexp", "oddexp", "oddexp", "grid", "named", "negative", "midmeas", "param", "sepkey", "empty", "circuitop",
-               "classical", "mixed_batch", "longkeys"]
+               "classical", "mixed_batch", "longkeys", "invert_mask", "confusion", "repeated_key"]
 
 @st.composite
 def _reject_case(draw):
@@ -683,6 +655,15 @@ def oracle_ionq_rejects(r):
             circuits.reverse()
         extra_exc = (IonQSerializerMixedGatesetsException,)
         planted = None
+    elif kind == "invert_mask":
+        qs = cirq.LineQubit.range(7, 9)
+        planted = cirq.Circuit(gates_part, meas_part, cirq.measure(*qs, key="inv", invert_mask=(bool(r["pos"] % 2), True)))
+    elif kind == "confusion":
+        q = cirq.LineQubit(9)
+        planted = cirq.Circuit(gates_part, meas_part, cirq.measure(q, key="cm", confusion_map={(0,): np.array([[0.9, 0.1], [0.2, 0.8]])}))
+    elif kind == "repeated_key":
+        qs = cirq.LineQubit.range(7, 9)
+        planted = cirq.Circuit(gates_part, meas_part, cirq.measure(qs[0], key="rep"), cirq.measure(qs[1], key="rep"))
     elif kind == "longkeys":
         qs = cirq.LineQubit.range(6)
         planted = cirq.Circuit(gates_part, [cirq.measure(q, key="k" * (61 + r["pos"]) + str(i)) for i, q in enumerate(qs)])
@@ -1006,7 +987,6 @@ def _patched(mod, **attrs):
 
 def oracle_ionq_service(r):
     sub = "ionq_service"
-    _pending(sub, r)
     r = dict(r, atol=0)
     atol = 1e-8
     native = bool(r["native"])
@@ -1238,9 +1218,9 @@ def _aqt_case(draw, clifford=False):
             o["w"] = [wire]
             ops.insert(len(ops) if clifford else draw(st.integers(0, len(ops))), o)
     reps = draw(st.integers(1, 6))
-    idle = draw(_one_in(20))
+    idle = draw(_one_in(6))
     ncols = n
-    return {"n": n, "ops": ops, "reps": reps, "meas": draw(_one_in(20)), "idle": idle,
+    return {"n": n, "ops": ops, "reps": reps, "meas": draw(_one_in(4)), "idle": idle,
             "samples": draw(st.lists(st.integers(0, 2 ** ncols - 1), min_size=reps, max_size=reps)),
             "resolvers": draw(st.lists(st.fixed_dictionaries({"a": G.exponents()}), min_size=1, max_size=2)),
             "seed": draw(st.integers(0, 2 ** 20))}
@@ -1298,7 +1278,6 @@ class _FakeAQT:
 
 
 def oracle_aqt_payload(r):
-    _pending("aqt_payload", r)
     circuit, qs, nsym = _build_aqt(r)
     nchain = len(qs)
     reps = int(r["reps"])
@@ -1357,11 +1336,11 @@ def oracle_aqt_payload(r):
         if o["k"] == "R" and (2 * o["p"]) % 1 != 0 and (o["e"] % 2) != 0:
             nontriv = True
     return {"nontrivial": nontriv, "parameterised": nsym > 0, "two_resolvers": len(resolvers) > 1, "n": min(nchain, 4),
+            "terminal_measure": bool(r.get("meas")), "idle_ion": bool(r.get("idle")),
             "has_ms": any(o["k"] in ("MS", "MSR") for o in r["ops"]), "asym_rows": any(row != row[::-1] for row in rows)}
 
 
 def oracle_aqt_local(r):
-    _pending("aqt_local", r)
     circuit, qs, nsym = _build_aqt(r)
     n = len(qs)
     reps = int(r["reps"]) * 3
@@ -1380,6 +1359,7 @@ def oracle_aqt_local(r):
             raise Violation(f"local simulator sampled {row.tolist()}, which has probability {probs[idx]:.2g} for the submitted circuit "
                             f"(support size {support})")
     return {"nontrivial": support < 2 ** n and len(r["ops"]) >= 2, "deterministic": support == 1, "support_lt_full": support < 2 ** n,
+            "terminal_measure": bool(r.get("meas")), "idle_ion": bool(r.get("idle")),
             "flipped": bool(support == 1 and probs[0] < 0.5)}
 
 
